@@ -63,6 +63,25 @@ def T_scaled(rng, v=0):
     return p, dict(points=[x0, x1, y], exprs=[(x1 - xs) ** 2, y * y], funcs=[f], scale=R * R)
 
 
+def T_illcond(rng, v=0):
+    """a stiff but legitimate model: smoothness constant 50 / 100 with a unit initial radius - gradients live on a scale L times that of the points, so the
+    multiplier of G >> 0 has genuine eigenvalues more than three orders of magnitude apart"""
+    from PEPit import PEP
+    from PEPit.functions import SmoothStronglyConvexFunction
+    L, mu, n = [(50., .1, 3), (100., 0., 2), (50., .1, 2), (30., .5, 3)][v % 4]
+    p = PEP()
+    f = p.declare_function(SmoothStronglyConvexFunction, mu=mu, L=L)
+    xs = f.stationary_point()
+    fs = f(xs)
+    x0 = p.set_initial_point()
+    p.set_initial_condition((x0 - xs) ** 2 <= 1)
+    x = x0
+    for _ in range(n):
+        x = x - f.gradient(x) / L
+    p.set_performance_metric(f(x) - fs)
+    return p, dict(points=[x0, x, xs], exprs=[f(x) - fs, (x0 - xs) ** 2], funcs=[f])
+
+
 def T_prox_convex(rng, v=0):
     from PEPit import PEP
     from PEPit.functions import ConvexFunction
@@ -427,7 +446,7 @@ def T_unbounded(rng, v=0):
 
 
 TEMPLATES = [T_gd_ssc, T_metrics, T_prox_convex, T_user_lmi, T_asym_lmi, T_quadratic, T_composite, T_qg, T_operator, T_blocks, T_linear, T_inexact, T_nonsmooth]
-ALL = {t.__name__: t for t in TEMPLATES + [T_unbounded, T_scaled, T_duplicates]}
+ALL = {t.__name__: t for t in TEMPLATES + [T_unbounded, T_scaled, T_duplicates, T_illcond]}
 
 
 def build(name, seed):
